@@ -212,6 +212,32 @@ impl Family for Truncated {
     }
 }
 
+/// every `stride`-th program of a family
+pub struct Strided {
+    pub base: Box<dyn Family>,
+    pub stride: usize,
+}
+impl Family for Strided {
+    fn name(&self) -> String {
+        format!("every {}th program of {}", self.stride, self.base.name())
+    }
+    fn universe(&self) -> &Universe {
+        self.base.universe()
+    }
+    fn len(&self) -> usize {
+        (self.base.len() + self.stride - 1) / self.stride
+    }
+    fn get(&self, i: usize) -> P {
+        self.base.get(i * self.stride)
+    }
+    fn is_shallow(&self, i: usize) -> bool {
+        self.base.is_shallow(i * self.stride)
+    }
+    fn include(&self, i: usize) -> bool {
+        self.base.include(i * self.stride)
+    }
+}
+
 pub fn families(kind: Kind, tier: Tier) -> Vec<Box<dyn Family>> {
     let mut v: Vec<Box<dyn Family>> = vec![];
     match (kind, tier) {
@@ -220,6 +246,10 @@ pub fn families(kind: Kind, tier: Tier) -> Vec<Box<dyn Family>> {
             v.push(Box::new(Truncated { base: Box::new(side_family(false)), n: 20_000 }));
             v.push(Box::new(Truncated { base: Box::new(core_other_universe(1, false)), n: 20_000 }));
             v.push(Box::new(classics()));
+            v.push(Box::new(Strided { base: Box::new(level3_slice(false)), stride: 17 }));
+            v.push(Box::new(Strided { base: Box::new(level3_pairs(false)), stride: 3 }));
+            v.push(Box::new(Strided { base: Box::new(comp_over_level2()), stride: 11 }));
+            v.push(Box::new(Strided { base: Box::new(nested_loops(false)), stride: 5 }));
         }
         (Kind::C03, Tier::Thorough) => {
             v.push(Box::new(core_quick()));
@@ -227,6 +257,11 @@ pub fn families(kind: Kind, tier: Tier) -> Vec<Box<dyn Family>> {
             v.push(Box::new(core_other_universe(1, false)));
             v.push(Box::new(core_other_universe(2, false)));
             v.push(Box::new(classics()));
+            v.push(Box::new(level3_slice(false)));
+            v.push(Box::new(level3_pairs(false)));
+            v.push(Box::new(comp_over_level2()));
+            v.push(Box::new(nested_loops(true)));
+            v.push(Box::new(Strided { base: Box::new(core_wide()), stride: 7 }));
         }
         (Kind::C14, Tier::Quick) => {
             v.push(Box::new(Truncated { base: Box::new(core_quick()), n: 100_000 }));
@@ -245,6 +280,7 @@ pub fn families(kind: Kind, tier: Tier) -> Vec<Box<dyn Family>> {
             v.push(Box::new(level3_slice(false)));
             v.push(Box::new(level3_pairs(false)));
             v.push(Box::new(nested_loops(false)));
+            v.push(Box::new(comp_over_level2()));
         }
         (_, Tier::Thorough) => {
             v.push(Box::new(big_classics()));
